@@ -56,7 +56,8 @@ Definition reference_facts : facts := {|
   f_call_inherits_static := false;
   f_snap_each_call := true;
   f_max_calls := 10;
-  f_revert_decode_total := true |}.
+  f_revert_decode_total := true;
+  f_pair_validation_total := true |}.
 
 (** sample world for witnesses: the state is a counter of writes; state-changing bodies write once *)
 Definition sample_body : mid -> list arg -> Z -> Z -> bres Z :=
@@ -123,3 +124,7 @@ Definition hostile_token_body : mid -> list arg -> Z -> Z -> bres Z :=
                   | FT_balance | FT_sendToBank | FT_sendToEvm => BNested st 5000 NRevert panic_selector 32
                   | _ => BOk st 1200
                   end.
+
+(** Oracle.queryExchangeRate("unibi:uusd\x00") *)
+Definition oracle_query_nul_call : input :=
+  call_of 1808896047 100 [AStr (unibi ++ [58; 117; 117; 115; 100; 0]) false 0 false].
